@@ -83,6 +83,12 @@ class CancelOracle(Monitor):
                 w.violate("C12.b_eof_checksum", f"ck={c.ck.name} prefix={size < len(w.src_bytes)} step={pre.step}", "")
             if len(rec.emitted) > 1:
                 w.violate("C12.b_extra_pdus", f"{[x.kind for x in rec.emitted]}", "")
+            from cfdpsim.world import UNACK as _UNACK
+
+            if c.mode == _UNACK and rec.post.state != "IDLE":
+                # unacknowledged mode: nothing is awaited after the EOF (cancel), the transaction is over at once
+                w.violate("C12.b_sender_not_finished", f"still {rec.post.step} after the EOF (cancel) in unacknowledged mode (request mode "
+                          f"{c.req_mode}, MIB default {c.mib_mode})", "")
         else:
             w.probe(f"C12.dst_cancel_at:{pre.step}")
             self.cancel_seen = True
